@@ -307,6 +307,55 @@ func init() {
 			runSF(c, baseDG(false, sfh.FlowSample(2, r)), nil, fmt.Sprintf("frame %s field %s", vs[d[0]].Name, sfh.FrameFields[d[1]]))
 		}}
 	}
+	// sflow.sweep: EVERY value of the 16-bit fields of a sampled frame (IPv4 total length and id, IPv6 payload
+	// length, TCP/UDP ports, the 802.1Q tag) and of the 8-bit ones (TOS, TTL / hop limit, ICMP type and code): the
+	// length fields in particular describe the ORIGINAL packet, not what was sampled - a decoder that acts on them
+	// (trims "padding", stops early) shows only for particular values.
+	spaces["sflow.sweep"] = func(tier string) mck.Space {
+		vs := sfh.FrameVariants()
+		type fld struct {
+			name string
+			bits int
+			set  func(f *ref.Frame, v uint16)
+			need func(v sfh.FrameVariant) bool
+		}
+		v4 := func(v sfh.FrameVariant) bool { return !v.V6 }
+		v6 := func(v sfh.FrameVariant) bool { return v.V6 }
+		flds := []fld{
+			{"ipv4 total length", 16, func(f *ref.Frame, v uint16) { f.TotalLen = v }, v4},
+			{"ipv4 id", 16, func(f *ref.Frame, v uint16) { f.ID = v }, v4},
+			{"ipv6 payload length", 16, func(f *ref.Frame, v uint16) { f.PayLen = v }, v6},
+			{"source port", 16, func(f *ref.Frame, v uint16) { f.SPort = v }, func(v sfh.FrameVariant) bool { return v.L4 == 6 || v.L4 == 17 }},
+			{"destination port", 16, func(f *ref.Frame, v uint16) { f.DPort = v }, func(v sfh.FrameVariant) bool { return v.L4 == 6 || v.L4 == 17 }},
+			{"802.1Q tag", 16, func(f *ref.Frame, v uint16) { f.TCI = v }, func(v sfh.FrameVariant) bool { return v.VLAN }},
+			{"tos", 8, func(f *ref.Frame, v uint16) { f.TOS = uint8(v) }, v4},
+			{"ttl", 8, func(f *ref.Frame, v uint16) { f.TTL = uint8(v) }, v4},
+			{"hop limit", 8, func(f *ref.Frame, v uint16) { f.HopLimit = uint8(v) }, v6},
+			{"icmp type", 8, func(f *ref.Frame, v uint16) { f.ICMPType = uint8(v) }, func(v sfh.FrameVariant) bool { return v.L4 == 1 || v.L4 == 58 }},
+			{"icmp code", 8, func(f *ref.Frame, v uint16) { f.ICMPCode = uint8(v) }, func(v sfh.FrameVariant) bool { return v.L4 == 1 || v.L4 == 58 }},
+		}
+		pick := []int{0, 1, 2, 9, 17, 26} // eth/ip4/{tcp,udp,icmp}, eth+vlan/ip4/tcp, eth+vlan/ip6/icmp, raw-ip6/icmp
+		if tier == "thorough" {
+			pick = nil
+			for i := range vs {
+				pick = append(pick, i)
+			}
+		}
+		dims := mck.Radix{uint64(len(pick)), uint64(len(flds)), 65536}
+		return mck.FuncSpace{N: dims.Size(), F: func(idx uint64, c *mck.Ctx) {
+			d := dims.Digits(idx)
+			v, fl := vs[pick[d[0]]], flds[d[1]]
+			if !fl.need(v) || (fl.bits == 8 && d[2] > 255) {
+				c.Skip()
+				return
+			}
+			f := sfh.MkFrame(v, "posuniq")
+			f.Payload = []byte{0xa1, 0xa2, 0xa3, 0xa4, 0xa5, 0xa6, 0xa7, 0xa8, 0xa9, 0xaa, 0xab, 0xac, 0xad, 0xae, 0xaf, 0xb0, 0xb1, 0xb2, 0xb3, 0xb4, 0xb5, 0xb6}
+			fl.set(f, uint16(d[2]))
+			r := ref.SFRecord{Kind: "raw", Tag: 1, Frame: f, FrameLen: 64, Stripped: 4, HeaderLen: len(f.Bytes())}
+			runSF(c, baseDG(false, sfh.FlowSample(0, r)), nil, fmt.Sprintf("frame %s, %s = %d", v.Name, fl.name, d[2]))
+		}}
+	}
 	// sflow.hdrlen: one representative frame per L4, every sampled header length 0..1500
 	spaces["sflow.hdrlen"] = func(tier string) mck.Space {
 		vs := sfh.FrameVariants()
